@@ -108,7 +108,37 @@ def check_C20(ck, res, replay):
             cf_large.add("ITER2", body, prefix="L")
             if len(places) <= 2:
                 cf_large.add("ITER3", body, prefix="L")
+    # 64 and more undecided positions: the enumeration cannot be exhausted, the first elements are taken
+    cf_many = gen.CaseFile()
+    if not replay:
+        for k_ in (63, 64, 65, 70, 130):
+            v = []
+            for i in range(k_):
+                v += [2 + i % 4] + ([i % 2] if i % 3 == 0 else [])
+            cf_many.add("ITER2 6", ["v " + " ".join(map(str, v))], prefix="M", meta={"k": k_})
+            cf_many.add("ITER3 6", ["v " + " ".join(map(str, v))], prefix="M", meta={"k": k_})
     impl, model = correspond(ck, res, cf, hbin, "C20")
+    many = 0
+    if hbin and cf_many.meta:
+        out_m, _f = ck.run_sharded(hbin, cf_many.lines, "C20.many", timeout=600)
+        for cid, (kind, body, meta) in cf_many.meta.items():
+            a = out_m.get(cid)
+            v = [int(x) for x in body[0].split()[1:]]
+            many += 1
+            what = None
+            if not a or not a[0].startswith("seq"):
+                what = "no sequence (%s)" % (a[:1] if a else a)
+            else:
+                seqs = [tuple(int(x) for x in s_.split(",")) for s_ in a[0][4:].split(" ") if s_]
+                base = 2 if kind.startswith("ITER2") else 3
+                okv = lambda w: len(w) == len(v) and all((x == y) if y < 2 else (x in ((0, 1) if base == 2 else (0, 1, y))) for x, y in zip(w, v))
+                if len(seqs) != 6:
+                    what = "yields %d interpretations where 6 of %d^%d were asked for" % (len(seqs), base, meta["k"])
+                elif len(set(seqs)) != 6 or not all(okv(w) for w in seqs):
+                    what = "the first interpretations are not distinct completions / refinements of the vector"
+            if what:
+                res.violations.append({"key": "iter:%s:undecided-%d" % (kind.split()[0], meta["k"]), "what": what + " (%d undecided positions)" % meta["k"], "kind": kind, "body": body, "observed": [(a or ["-"])[0][:200]]})
+    res.extra["vectors_with_64_and_more_undecided_positions"] = many
     large_ids = set()
     if hbin and cf_large.meta:
         out_l, _f = ck.run_sharded(hbin, cf_large.lines, "C20.large", timeout=600)
@@ -870,6 +900,40 @@ def check_C13(ck, res, replay):
                     mism += 1
                     if mism <= 5:
                         res.broken.append(("correspondence", "feature set %s case %s: implementation and model differ" % (tag, cid), json.dumps({"body": body, "impl": a, "model": b})[:2500]))
+    # the command-line observation point: adf-bdd --counter nai prints the (counter-model, model) counts of every
+    # acceptance condition as written; hybrid and naive mode, with and without sorting
+    cli_counts = 0
+    if not replay:
+        binary = build_cli(ck, res)
+        if binary:
+            rngc = gen.Rng(res.seed ^ 0xC13C)
+            cases = {}
+            for b_ in range(40 if res.tier == "quick" else 600):
+                text, n = gen.gen_adf(rngc, nmax=6, depth=3, style=0, layout={"shuffle": rngc.chance(1, 3)}, degenerate=False)
+                for mode in ("hybrid", "naive"):
+                    for sort in ("none", "lexi"):
+                        cases["k%d.%s.%s" % (b_, mode, sort)] = {"text": text, "mode": mode, "sort": sort, "flags": [], "counter": "nai"}
+            outs = run_cli_cases(ck, binary, cases)
+            for cid, c in cases.items():
+                o_ = outs.get(cid)
+                cli_counts += 1
+                names, conds = oracle.parse_adf_text(c["text"])
+                if c["sort"] == "lexi":
+                    names = sorted(names, key=lambda s_: s_.encode())
+                got = re.findall(r"ModelCounts \{ cmodels: (\d+), models: (\d+) \}", " ".join(o_[1])) if o_ and o_[0] == 0 else None
+                if got is None or len(got) != len(names):
+                    res.violations.append({"key": "counter:no-answer", "what": "adf-bdd --lib %s --counter nai prints %s counts for %d statements (exit %s)" % (c["mode"], None if got is None else len(got), len(names), o_ and o_[0]),
+                                           "text": c["text"], "meta": {k_: c[k_] for k_ in ("mode", "sort")}})
+                    continue
+                size = 1 << len(names)
+                for (cm, m), nm in zip(got, names):
+                    ones = bin(formula_tt(conds.get(nm, ("bot",)), names)).count("1")
+                    cm, m = int(cm), int(m)
+                    if cm + m == 0 or cm * ones != m * (size - ones):
+                        res.violations.append({"key": "counter:wrong-ratio", "what": "adf-bdd --lib %s --counter nai: statement %s has counts (%d, %d) but its condition has %d counter-models and %d models among %d assignments" % (
+                            c["mode"], nm, cm, m, size - ones, ones, size), "text": c["text"], "meta": {k_: c[k_] for k_ in ("mode", "sort")}, "observed": o_[1][:2]})
+                        break
+    res.extra["cli_counter_runs"] = cli_counts
     res.extra["other_feature_set_cases"] = extra_eval
     res.cov["evaluations"] = len(cf.meta) + extra_eval
     res.cov["distinct_nontrivial"] = len(nontriv)
@@ -915,7 +979,7 @@ def adf_case_stream(res, rng, n_random, nmax, with_tt2=True, tt3=0, style_max=1)
         yield text, "fixed"
 
 
-def judge_adf(text, a, queries, sort="none"):
+def judge_adf(text, a, queries, sort="none", backend=None):
     """judges the implementation's answers against the definitions by enumeration; returns [(key, what)]"""
     bad = []
     if a is None or any(l.startswith("PANIC") or l.startswith("TIMEOUT") for l in a):
@@ -968,6 +1032,15 @@ def judge_adf(text, a, queries, sort="none"):
             if kind == "complete" and got and got[0] != expected("grounded")[0]:
                 bad.append(("complete:order", "the grounded interpretation is not listed first"))
             info[kind] = len(got)
+        elif kind == "counts" and q[1] == "0" and backend in (None, "native", "hyb0") and not any(x[0] == "rebuild" for x in queries):
+            # Adf::formulacounts(false): (counter-models, models) of every condition as written, in exact ratio
+            size_ = 1 << len(names_impl)
+            for item, nm in zip(rw[1:], names_impl):
+                cm, m = (int(x) for x in item.split("/"))
+                ones = bin(formula_tt(conds.get(nm, ("bot",)), names_impl)).count("1")
+                if cm + m == 0 or cm * ones != m * (size_ - ones):
+                    bad.append(("counts:ratio", "formulacounts: statement %s has counts (%d, %d), its condition has %d counter-models and %d models among %d assignments" % (nm, cm, m, size_ - ones, ones, size_)))
+                    break
         elif kind == "paths":
             # judged from the implementation's own node table (append-only: the last table printed has every handle)
             tabs = [l for l in a if " table " in l]
@@ -1052,7 +1125,7 @@ def run_adf_check(ck, res, replay, pid, queries_of, n_quick, n_thorough, nmax_q=
         if a and any(l == "SKIPPED" for l in a):
             res.extra["skipped_after_timeouts"] = res.extra.get("skipped_after_timeouts", 0) + 1
             continue
-        bad, info = judge_adf(meta["text"], a, meta["queries"], meta.get("sort", "none"))
+        bad, info = judge_adf(meta["text"], a, meta["queries"], meta.get("sort", "none"), meta.get("backend"))
         for key, what in bad:
             res.violations.append({"key": "adf:" + key, "what": what, "body": body, "meta": meta, "observed": a, "model": b})
         if info:
@@ -1378,6 +1451,9 @@ def gen_stream(rng, nvars, nops):
                 out.append("poll1 %d" % rng.below(2 + approx_nodes))
             else:
                 out.append("poll2 %d" % rng.below(2 + approx_nodes))
+    if rng.chance(1, 8) and len(out) > 6:
+        # whatever listens behind the relay goes away in the middle of the run: the relay must keep mirroring the producer
+        out.insert(len(out) // 2 + rng.below(len(out) // 2), "dropdown")
     out.append("tables")
     # drain completely: everything pumped, both mirrors poll beyond the end
     out += ["pump1 100000", "poll1 99999999", "pump2 100000", "poll2 99999999", "tables"]
@@ -1397,8 +1473,9 @@ def judge_stream(body, a):
             if c != p[:len(c)]:
                 bad.append(("receiver-not-prefix", "the receiver's table is not a prefix of the producer's"))
             last = (p, r, c)
-    if last[0] != last[1] or last[0] != last[2]:
-        bad.append(("drained-unequal", "after draining the channel the tables differ"))
+    cut = "dropdown" in body       # the receiver behind the relay was disconnected on purpose: only the relay has to catch up
+    if last[0] != last[1] or (last[0] != last[2] and not cut):
+        bad.append(("drained-unequal", "after draining the channel the tables differ" + (" (relay, after its downstream receiver was dropped)" if cut else "")))
     # poll answers: found iff the handle is present after polling
     qi = 0
     ans = {l.split()[0]: l.split() for l in a}
@@ -1793,6 +1870,8 @@ def run_cli_cases(ck, binary, cases):
             args += ["--heu", c["heu"]]
         if c.get("export"):
             args += ["--export", c["export"]]
+        if c.get("counter"):
+            args += ["--counter", c["counter"]]
         args.append(p)
         try:
             r = subprocess.run(args, stdout=subprocess.PIPE, stderr=subprocess.PIPE, timeout=60, text=True, env={"PATH": os.environ.get("PATH", ""), "RUST_LOG": "error"})
@@ -2492,9 +2571,10 @@ def check_C17(ck, res, replay):
                 cl = [base + i for i in range(ncl)]
                 base += 10
                 acct = {c: None for c in cl}          # account name the client believes it is logged in as
-                pw = {c: "pw%dq%d" % (c, rng.below(100)) for c in cl}
+                pw = {c: rng.pick(["pw%dq%d", " pw%d q%d ", "pw%dq%d  ", "\tpw%dq%d"]) % (c, rng.below(100)) for c in cl}
                 names = {c: "acc%dh%d" % (c, hno) for c in cl}
                 pnames = ["shared", "p1", "p2"]
+                exists = {}
                 for _ in range(18 + rng.below(18)):
                     c = rng.pick(cl)
                     k = rng.below(100)
@@ -2503,7 +2583,7 @@ def check_C17(ck, res, replay):
                     if k < 10:
                         req = ("register", names[c], pw[c])
                     elif k < 22:
-                        req = ("login", names[c], pw[c] if rng.chance(5, 6) else "wrong")
+                        req = ("login", names[c], pw[c] if rng.chance(4, 6) else rng.pick(["wrong", pw[c].strip() + " ", " " + pw[c].strip(), pw[c].strip()]))
                     elif k < 26:
                         req = ("login", names[rng.pick(cl)], "guess")          # somebody else's account, wrong password
                     elif k < 30:
@@ -2512,7 +2592,7 @@ def check_C17(ck, res, replay):
                         req = ("info",)
                     elif k < 41:
                         newname = names[c] + "r" if rng.chance(1, 2) else names[c]
-                        newpw = "n%s" % pw[c] if rng.chance(1, 2) else pw[c]
+                        newpw = rng.pick(["n%s", " n%s ", "n%s "]) % pw[c].strip() if rng.chance(1, 2) else pw[c]
                         req = ("update", newname, newpw)
                     elif k < 44:
                         req = ("delacc",)
@@ -2529,8 +2609,19 @@ def check_C17(ck, res, replay):
                     st, body = run.do(c, req)
                     nreq += 1
                     kinds[req[0]] = kinds.get(req[0], 0) + 1
+                    # login succeeds iff the password is the one most recently set (judged directly; the model agrees by C17_login_iff)
+                    if req[0] == "login" and req[1] == names[c]:
+                        if req[2] == pw[c] and exists.get(c) and st != 200:
+                            res.violations.append({"key": "credentials:login-refused", "what": "login with the most recently set password %r is refused (%s)" % (req[2], st), "events": list(run.model_lines)})
+                        if req[2] != pw[c] and st == 200:
+                            res.violations.append({"key": "credentials:login-accepted", "what": "login succeeds with %r although the password most recently set is %r" % (req[2], pw[c]), "events": list(run.model_lines)})
+                    if req[0] == "register" and st == 200:
+                        exists[c] = True
+                    if req[0] == "delacc" and st == 200:
+                        exists[c] = False
                     if req[0] == "update" and st == 200:
                         names[c], pw[c] = req[1], req[2]
+                        exists[c] = True
                     # direct judgements on the real server's behaviour
                     if st == 200 and req[0] in ("get", "list"):
                         for other in cl:
